@@ -164,7 +164,7 @@ class Embedding:
         simplicial complex, i.e., the number of simplices we can return positions for.
 
         :returns: the size of the embedding"""
-        return self.complex().simplicesOfOrder(0)
+        return len(self.complex().simplicesOfOrder(0))
 
     def __setitem__(self, s: Simplex, pos: List[float]):
         """Dict-like interface to define an explicit position for a simplex.
